@@ -59,7 +59,7 @@ Print Assumptions C04_start_parsed.
 (* ... or built through the API *)
 Theorem C04_start_built : forall ops ty code mid max,
   0 <= max -> Forall ed_bop_ok ops -> ed_pwf (snd (run_ops (pdu_init ty code mid max) ops)).
-Proof. intros. apply ed_pwf_build; [apply ed_pwf_init|]; assumption. Qed.
+Proof. exact ed_pwf_built. Qed.
 Print Assumptions C04_start_built.
 
 (* edits, then the wire, then the parser: the bytes after any edit list serialise (all three
@@ -209,8 +209,5 @@ Theorem C04_nonvacuous :
   fst (ed_run ed_ex_pdu ed_ex_edits) = [true; true; true; true; true; false] /\
   m_opts (p_msg (snd (ed_run ed_ex_pdu ed_ex_edits))) = [(300, []); (2000, repeat 0 13)] /\
   len (m_token (p_msg (snd (ed_run ed_ex_pdu ed_ex_edits)))) = 300.
-Proof.
-  split; [exact ed_ex_pwf|]. split; [exact ed_ex_msg_wf|]. split; [discriminate|].
-  split; [exact ed_ex_fine|]. rewrite ed_ex_run. repeat split.
-Qed.
+Proof. exact ed_ex_nonvacuous. Qed.
 Print Assumptions C04_nonvacuous.
